@@ -44,8 +44,8 @@ def _diffclass(x, y):
     return 'diff:' + '+'.join(cl)
 
 
-def _verdict(m, x):
-    o = outcome(m.validate, x)
+def _verdict(m, x, opts=None):
+    o = outcome(m.validate, x, **(opts or {}))
     if o[0] == 'ok':
         return ('ok', o[1])
     if o[0] == 'verr':
@@ -53,11 +53,11 @@ def _verdict(m, x):
     return ('exc', o[1])
 
 
-def _compare(res, name, m, members):
+def _compare(res, name, m, members, opts=None):
     """members: list of (x, dev).  All verdicts must agree."""
     base = None
     for x, dev in members:
-        v = _verdict(m, x)
+        v = _verdict(m, x, opts)
         if v[0] == 'exc':
             v = ('rej',)   # C01's business; here treated as a rejection
         if base is None:
@@ -67,9 +67,9 @@ def _compare(res, name, m, members):
             a, b = (base[0], x) if (len(base[0]), base[0]) <= (len(x), x) else (x, base[0])
             clause = 'value-differs' if v[0] == 'ok' and base[1][0] == 'ok' else 'verdict-differs'
             dc = _diffclass(a, b)
-            res.viol(ID, clause, name, 'validate', {'module': name, 'x': a, 'y': b},
+            res.viol(ID, clause, name, 'validate', {'module': name, 'x': a, 'y': b, 'options': {k: core.enc(val) for k, val in (opts or {}).items()}},
                      'compact equal but validate(%r) -> %r, validate(%r) -> %r' % (base[0], base[1], x, v),
-                     'same verdict', devclass=dc, rank=[dev[0], len(a) + len(b), a + b])
+                     'same verdict', excinfo='+'.join(sorted(opts or {})), devclass=dc, rank=[dev[0], len(a) + len(b), a + b])
 
 
 def work(item):
@@ -116,10 +116,20 @@ def work(item):
                 transitions += 1
                 if t not in states:
                     states[t] = (1, 'decor:' + class_of(c), b)
-        for t in (b.lower(), b.upper(), b.swapcase(), b.title()):
+        for t in [b.lower(), b.upper(), b.swapcase(), b.title()] + \
+                [b[:i] + b[i].swapcase() + b[i + 1:] for i in range(len(b)) if b[i].isalpha()] + \
+                [b[:i] + b[i:].swapcase() for i in range(1, len(b)) if b[i].isalpha()]:
             transitions += 1
             if t not in states:
                 states[t] = (1, 'case', b)
+    # case variants of further seeds (formats with several families, e.g. Base58 and Bech32 addresses)
+    from .. import seeds as seedmod
+    for s_, v_ in seedmod.seeds(name, 12):
+        for b in (v_, s_):
+            for t in (b.lower(), b.upper(), b.swapcase(), b.title(), b[:1].swapcase() + b[1:], b[:3].upper() + b[3:]):
+                transitions += 1
+                if t not in states:
+                    states[t] = (1, 'case', b)
     res['transitions'] = transitions
     groups = collections.defaultdict(list)
     ncomp_err = 0
@@ -135,12 +145,18 @@ def work(item):
         groups[k].append((x, dev))
     multi = 0
     nacc = 0
+    from ..tables.options import option_sets
+    optsets = option_sets(name, m.validate)[0]
     for k, members in groups.items():
         if len(members) < 2:
             continue
         multi += 1
         members.sort(key=lambda t: (t[1][0], len(t[0]), t[0]))
         _compare(res, name, m, members)
+        # each single non-default validate() option: the statement quantifies over validate() as called
+        for opts in optsets[1:]:
+            if len(members) <= 40:
+                _compare(res, name, m, members, opts)
     res['states'] = len(states)
     res['evaluations'] = len(states)
     res['impl_execs'] = len(states) * 2
@@ -161,5 +177,6 @@ def replay(case):
             return []
     except Exception:
         return []
-    _compare(res, case['module'], m, [(case['x'], (0, '', '')), (case['y'], (1, '', ''))])
+    _compare(res, case['module'], m, [(case['x'], (0, '', '')), (case['y'], (1, '', ''))],
+             {k: core.dec(v) for k, v in case.get('options', {}).items()} or None)
     return res['violations']
